@@ -48,7 +48,12 @@ class OKPBinding(CryptographyBinding):
             raise ValueError('Invalid crv value: "{}"'.format(obj["crv"]))
         crv_key: t.Type[PrivateOKPKey] = PRIVATE_KEYS_MAP[obj["crv"]]
         d = urlsafe_b64decode(to_bytes(obj["d"]))
-        return crv_key.from_private_bytes(d)
+        key = crv_key.from_private_bytes(d)
+        # "x" is a required member: it must decode and be the public key of "d"
+        x_bytes = urlsafe_b64decode(to_bytes(obj["x"]))
+        if key.public_key().public_bytes(Encoding.Raw, PublicFormat.Raw) != x_bytes:
+            raise ValueError('"x" does not match the private key "d"')
+        return key
 
     @staticmethod
     def import_public_key(obj: OKPDictKey) -> PublicOKPKey:
